@@ -812,8 +812,7 @@ def norm(t):
         return t
     if k == 'binop':
         op, a, b = t[1], t[2], t[3]
-        if a[0] == 'const' and b[0] == 'const' and isinstance(a[1], (int, float)) and isinstance(b[1], (int, float)) \
-                and not isinstance(a[1], bool) and not isinstance(b[1], bool):
+        if a[0] == 'const' and b[0] == 'const' and isinstance(a[1], (int, float)) and isinstance(b[1], (int, float)):
             try:
                 r = {'Add': lambda: a[1] + b[1], 'Sub': lambda: a[1] - b[1], 'Mult': lambda: a[1] * b[1]}.get(op)
                 if r is not None:
@@ -913,6 +912,8 @@ def norm_call(fn, args, kw):
             return _lam1(lambda x: norm(('if', apply(args[0], [x]), apply(args[1], [x]), apply(args[2], [x]))))
         if g == 'maz.fnexcept' and len(args) == 2:
             return _lam1(lambda x: ('try', apply(args[0], [x]), (('handler', G('Exception'), apply(args[1], [x])),)))
+        if g.endswith('__try__') and len(args) == 2:
+            return ('try', args[0], (('handler', G('Exception'), args[1]),))
         if g == 'maz.invoke' and len(args) == 2 and not kw:
             return norm_call(args[0], [('star', args[1])], [])
         if g == 'maz.pospartial' and len(args) == 2 and args[1][0] in ('list', 'tuple'):
@@ -1084,8 +1085,8 @@ def _key(t):
 
 def _poly_of(t):
     """Return dict monomial(tuple of atoms) -> coef, or None if t is not arithmetic."""
-    if t[0] == 'const' and isinstance(t[1], (int, float)) and not isinstance(t[1], bool):
-        return {(): t[1]} if t[1] != 0 else {}
+    if t[0] == 'const' and isinstance(t[1], (int, float)):
+        return {(): int(t[1]) if isinstance(t[1], bool) else t[1]} if t[1] != 0 else {}
     if t[0] == 'poly':
         return {m: c for c, m in t[1]}
     if t[0] == 'binop' and t[1] in ('Add', 'Sub', 'Mult'):
@@ -1152,6 +1153,24 @@ def canon(t):
                 p = _padd(p, {(): 1}, -1)
             return ('ge0', _mk_poly(p))
         if op in ('Eq', 'NotEq'):
+            pa, pb = _poly_of(a), _poly_of(b)
+            if (pa is not None or pb is not None) and (a[0] in ('poly', 'const') or b[0] in ('poly', 'const')):
+                d = _padd(pa if pa is not None else {(a,): 1}, pb if pb is not None else {(b,): 1}, -1)
+                atoms = [(m, c) for m, c in d.items() if m != ()]
+                if not atoms:
+                    truth = (d.get((), 0) == 0)
+                    return C(truth if op == 'Eq' else not truth)
+                if len(atoms) == 1 and len(atoms[0][0]) == 1 and atoms[0][1] in (1, -1) and _is_boolean(atoms[0][0][0]):
+                    # c*atom + k == 0  with a 0/1 atom
+                    val = -d.get((), 0) * atoms[0][1]
+                    atom = atoms[0][0][0]
+                    if val == 1:
+                        res = atom
+                    elif val == 0:
+                        res = _negate_bool(atom)
+                    else:
+                        return C(op != 'Eq')
+                    return res if op == 'Eq' else _negate_bool(res)
             x, y = sorted([a, b], key=_key)
             return ('cmp', op, x, y)
         return t
@@ -1183,6 +1202,22 @@ def canon(t):
     if k == 'dict':
         return t
     return t
+
+
+def _is_boolean(t):
+    return t[0] in ('cmp', 'ge0', 'not') or (t[0] == 'const' and isinstance(t[1], bool))
+
+
+def _negate_bool(t):
+    if t[0] == 'cmp' and t[1] in ('Eq', 'NotEq'):
+        return ('cmp', 'NotEq' if t[1] == 'Eq' else 'Eq', t[2], t[3])
+    if t[0] == 'not':
+        return t[1]
+    if t[0] == 'ge0':
+        # not (p >= 0)  ==  -p - 1 >= 0   (integers)
+        p = _poly_of(t[1]) if t[1][0] in ('poly', 'const', 'binop') else {(t[1],): 1}
+        return ('ge0', _mk_poly(_padd({(): -1}, p, -1)))
+    return ('not', t)
 
 
 def _swap_lu(t):
@@ -1344,3 +1379,35 @@ def diff(a, b, path='', out=None, limit=6):
 
 def has_opaque(t):
     return [x for x in walk(t) if x[0] == 'opaque']
+
+
+# ------------------------------------------------------------------------------------------------
+# matching a code term against a reference with holes:  __hole_<name>__(...)  matches any sub-term
+# ------------------------------------------------------------------------------------------------
+def is_hole(t):
+    return t[0] == 'call' and t[1][0] == 'glob' and '__hole_' in t[1][1]
+
+
+def hole_name(t):
+    return t[1][1].split('__hole_')[1].rstrip('_')
+
+
+def has_holes(t):
+    return any(is_hole(x) for x in walk(t))
+
+
+def fill_holes(code, ref, binds):
+    """Return ref with every hole replaced by the code sub-term found at the same position (where alignable)."""
+    if is_node(ref) and is_hole(ref):
+        binds.setdefault(hole_name(ref), []).append(code)
+        return code
+    if not (is_node(code) and is_node(ref)) or code[0] != ref[0] or len(code) != len(ref) or ref[0] in ('const', 'var', 'glob', 'bv', 'opaque'):
+        return ref
+
+    def g(x, y):
+        if is_node(y):
+            return fill_holes(x, y, binds) if is_node(x) else y
+        if isinstance(y, tuple) and isinstance(x, tuple) and len(x) == len(y):
+            return tuple(g(a, b) for a, b in zip(x, y))
+        return y
+    return (ref[0],) + tuple(g(x, y) for x, y in zip(code[1:], ref[1:]))
